@@ -16,15 +16,26 @@ C18  1. TLC checks SchemaModel_MC18 exhaustively over the enumerated (schema, la
      3. binding sanity: corrupted expected ASTs / swapped texts must be noticed.
 
 C20  1. TLC checks SchemaModel_MC20 exhaustively over presentations of type universes (recursive, mutually
-        recursive, generics over built-ins, services, two schemas, the bookmarks_v2 types of the repo's tests):
+        recursive, generics over built-ins, generic custom types = Rust tuples of arity 1..4 over built-ins and
+        definitions, services, two schemas, the bookmarks_v2 types of the repo's tests):
+        Inv_WF (every presentation is a well-formed universe of well-formed type expressions),
         Inv_Algo (the worklist of compute_from_dyn collects exactly the reachable set whatever the orders),
         Inv_Perm (CanonId invariant under every permutation / doc / impl choice), Inv_Edit (CanonId changes
         under a single semantic edit iff the edited definition is the root or transitively referenced), and
         writes every presentation with its CanonId.
+        Tuples (SchemaModel!Tup): the lexical id of the TYPE is generic over the element ids, its LAYOUT is
+        the struct std::TupleN { required field<i> @ i }, so all tuples of one arity share the schema and name
+        of their layout.  The universes "tuples" / "tuplenest" hold a root with two different tuples of one
+        arity (both declaration orders through pmem / rord / combo), a definition reachable only through one
+        of two same-arity tuples (every edit of it must change the root's id), tuples in tuples and below
+        option / vec / map, in a service, recursion through a tuple; the seeded-random universes draw tuples
+        too; fields of tuple type have the extra edit sites element type / arity / element order.
      2. `schema-ids run` builds the ir::LayoutIr values through the public builders, computes the REAL
         TypeId::compute_from_dyn, the Introspection record and its serialization round trip, and decides
         equal CanonId <=> equal TypeId against the base of every case and pairwise across the corpus;
-        re-derives the pinned ids of core/src/introspection/test.
+        re-derives the pinned ids of core/src/introspection/test.  With impl = "real" the built-in generics
+        AND the tuples are the real Introspectable impls of aldrin-core (core/src/impls/tuple.rs) over slot
+        types; otherwise a tuple is hand-built IR as the specification describes it - the two must agree.
      3. binding sanity: corrupted CanonIds / a corrupted presentation must be noticed.
 """
 import glob
@@ -269,7 +280,8 @@ def run_c20(prop, tier, seed):
     json.dump(pins, open(ppath, "w"))
     t1 = time.time()
     s = vlib.run_driver("schema-ids", ["run", "--vectors", vectors, "--pinned", ppath], timeout=1500)
-    log(f"[driver] {s['cases']} presentations {s['by_op']} on the real introspection code: {s['classes']} CanonId classes, "
+    log(f"[driver] {s['cases']} presentations {s['by_op']} ({s.get('tuple_cases', 0)} with tuples, {s.get('real_tuple_cases', 0)} of them through "
+        f"the real tuple impls) on the real introspection code: {s['classes']} CanonId classes, "
         f"{s['distinct_type_ids']} distinct real ids, {s['roundtrips_ok']} record round trips, {s['layout_references_checked']} layout "
         f"references resolved, pinned ids re-derived {s['pinned_ok']}/{s['pinned_checked']}, {time.time() - t1:.1f}s")
     if s["cases"] != n_cases:
@@ -292,18 +304,22 @@ def run_c20(prop, tier, seed):
         traces_validated_against_impl=s["cases"], canon_id_classes=s["classes"], distinct_real_type_ids=s["distinct_type_ids"],
         record_roundtrips=s["roundtrips_ok"], layout_references_resolved=s["layout_references_checked"],
         pinned_ids_checked=s["pinned_checked"], pinned_ids_rederived=s["pinned_ok"], drift=drift,
+        presentations_with_tuples=s.get("tuple_cases", 0), presentations_with_real_tuple_impls=s.get("real_tuple_cases", 0),
+        max_tuple_types_in_one_universe=s.get("max_tuple_types", 0),
         evaluations=s["cases"], distinct_nontrivial=s["classes"],
         rule="distinct CanonId values (wire-relevant description + set of transitively referenced descriptions) among the "
              "presentations whose real TypeId was computed",
         samples=s.get("samples", []), selftest=st)
     vlib.write_evidence(prop, tier, seed, "model_checking", coverage, time.time() - t0, verdict.violations, assumptions=[
-        "the layout space is a bounded corpus enumerated from the model (9 universes incl. recursive, mutually recursive, generics over "
-        "built-ins, services, two schemas and the bookmarks_v2 types of the repository's tests; every definition as root; "
+        "the layout space is a bounded corpus enumerated from the model (11 fixed universes incl. recursive, mutually recursive, generics "
+        "over built-ins, tuples (generic custom types) of arity 1..4 over built-ins and definitions, nested tuples, services, two schemas "
+        "and the bookmarks_v2 types of the repository's tests, plus seeded-random universes; every definition as root; "
         "permutations of declaration / insertion / reference order, doc edits, every single semantic edit site)",
+        "tuples are the only generic custom types modelled (the only ones aldrin-core implements); arities 5..12 are the same macro",
         "add_references hands out exactly the types the layout mentions (as generated code does); hand-written impls that omit "
         "references (core/src/introspection/test.rs basic_enum_type_id) are outside the model",
         "hash collisions are ignored",
-        "ids are computed on IR built through the public builders (and through the real generic impls of aldrin-core for built-ins); "
+        "ids are computed on IR built through the public builders (and through the real generic impls of aldrin-core for built-ins and tuples); "
         "macro- and codegen-generated types are not compiled by this check",
         "the service uuid and version are part of the hashed layout but not of the statement's list: a disagreement there is DRIFT",
     ])
